@@ -469,6 +469,16 @@ type FuncSpec struct {
 	Havoc    []string
 	Notes    []string
 	AtRet    []*GhostStmt
+	OnAppend []*AppendSpec
+	SplitLatch bool // invariant preservation is checked per path into the loop latch, not on the merged state
+}
+
+// AppendSpec: "onappend T assert[..] label: P(elem)" - an assertion about every value of type T the
+// function appends to a slice, checked at the append (in the context of that branch alone).
+type AppendSpec struct {
+	Type   string
+	Clause *Clause
+	Use    *CE // "onappend T use axiom(args)": an axiom / lemma instance at the appended value
 }
 
 type Specs struct {
@@ -664,7 +674,7 @@ func loadSpecs(repo, verifDir string) (*Specs, error) {
 		}
 	}
 	for _, sf := range []string{"le(B,B) Bool", "lt(B,B) Bool", "pre(B,B) Bool", "cat(B,B) B", "blen(B) Int", "cmp(B,B) Int", "dyn(Int) Int", "kindcode(Any) Int",
-		"trim(B) B", "lead(B) Int", "trail(B) Int", "sub(B,Int,Int) B", "at(B,Int) Int", "chr(Int) B", "lower(B) B", "upper(B) B", "itoa(Int) B", "parseInt(B) Int", "parseIntOk(B) Bool",
+		"trim(B) B", "lead(B) Int", "trail(B) Int", "sub(B,Int,Int) B", "at(B,Int) Int", "chr(Int) B", "lower(B) B", "upper(B) B", "itoa(Int) B", "parseInt(B) Int", "parseIntOk(B) Bool", "parseFloatOk(B) Bool", "parseFloat(B) F64",
 		"flt(F64,F64) Bool", "fle(F64,F64) Bool", "feq(F64,F64) Bool", "fadd(F64,F64) F64", "fsub(F64,F64) F64", "fmul(F64,F64) F64", "fdiv(F64,F64) F64", "i2f(Int) F64", "f2i(F64) Int"} {
 		f, _ := parseSpecFunSig(sf)
 		sp.SpecFuns[f.Name] = f
@@ -876,6 +886,8 @@ func (sp *Specs) parseFile(path string) error {
 						cur.Assigns = append(cur.Assigns, e)
 					}
 				}
+			case "splitlatch":
+				cur.SplitLatch = true
 			case "pure":
 				cur.Pure = true
 			case "inline":
@@ -969,6 +981,26 @@ func (sp *Specs) parseFile(path string) error {
 					return err
 				}
 				curLoop.Decr = c
+			case "onappend":
+				f := strings.SplitN(rest, " ", 2)
+				if len(f) == 2 && strings.HasPrefix(strings.TrimSpace(f[1]), "use ") {
+					e, err := parseCE(strings.TrimSpace(strings.TrimPrefix(strings.TrimSpace(f[1]), "use ")))
+					if err != nil {
+						return errf("%v", err)
+					}
+					cur.OnAppend = append(cur.OnAppend, &AppendSpec{Type: f[0], Use: e})
+					break
+				}
+				if len(f) != 2 || !strings.HasPrefix(strings.TrimSpace(f[1]), "assert") {
+					return errf("onappend needs 'T assert ...' or 'T use axiom(...)'")
+				}
+				ty := f[0]
+				rest = strings.TrimSpace(strings.TrimPrefix(strings.TrimSpace(f[1]), "assert"))
+				c, err := mkClause("assert")
+				if err != nil {
+					return err
+				}
+				cur.OnAppend = append(cur.OnAppend, &AppendSpec{Type: ty, Clause: c})
 			case "atend", "atreturn":
 				var gs *GhostStmt
 				if strings.HasPrefix(rest, "set ") {
